@@ -5,7 +5,10 @@ import json
 
 import numpy as np
 
+import copy
+
 import netlib
+from netlib import Pin
 from common import Stream, cq, cvec, clist, main, rand_dyadic
 
 
@@ -32,6 +35,7 @@ class EnergyStream(Stream):
                        for _ in range(3)]
             # the same laws must hold when part of the circuit is declared as monitors (another path through solve):
             # a random non-empty proper subset, preferably of several structures
+            d["two_step"] = rng.random() < 0.3
             nc = len(d["comps"])
             if nc >= 2 and rng.random() < 0.3:
                 d["mon"] = sorted(rng.sample(range(nc), rng.randint(1, nc - 1) if nc < 3 else rng.randint(2, nc - 1)))
@@ -41,7 +45,19 @@ class EnergyStream(Stream):
     def run(self, d):
         names = [x[2] for x in d["expo"]]
         try:
-            sol, sts = netlib.build(d)
+            if d.get("two_step") and d["conns"]:
+                # built in two steps: everything but the last link, a solve, then the last link (between structures
+                # that the first solve has already joined) — the laws are about the final circuit
+                d1 = copy.deepcopy(d)
+                a, b = d1["conns"].pop()
+                sol, sts = netlib.build(d1)
+                try:
+                    sol.solve()
+                except Exception:
+                    pass
+                sol.connect(sts[a[0]], Pin(f"p{a[1]}"), sts[b[0]], Pin(f"p{b[1]}"))
+            else:
+                sol, sts = netlib.build(d)
             for i in d.get("mon", []):
                 sol.monitor_structure(sts[i], name=f"M{i}")
             mod = sol.solve()
